@@ -101,7 +101,12 @@ Upper(t) ==     \* i;ascii-casemap folding of the text alphabet used by the case
     CASE t = "Meeting" -> "MEETING" [] t = "meeting notes" -> "MEETING NOTES"
       [] t = "meet" -> "MEET" [] t = "MEET" -> "MEET" [] t = "xyz" -> "XYZ"
       [] t = "ACCEPTED" -> "ACCEPTED" [] t = "accepted" -> "ACCEPTED" [] t = "DECLINED" -> "DECLINED"
-      [] t = "ACC" -> "ACC" [] OTHER -> t
+      [] t = "ACC" -> "ACC"
+      \* "NONASCII" stands for a text with non-ASCII letters ("Café Zürich"), "NONASCII-UP" for the
+      \* same text with its ASCII letters in upper case ("CAFé ZüRICH"): i;ascii-casemap folds
+      \* only the ASCII letters
+      [] t = "NONASCII" -> "NONASCII-UP"
+      [] OTHER -> t
 
 \* substring relation on the (folded or raw) alphabet
 Sub(n, v) ==
